@@ -39,10 +39,21 @@ def enc_indent_arg(x):
     return [3]
 
 
+_MK = [0]
+
+
 def mk_formatter(el, name, indent):
     """A Formatter object like the registry's `name` for this flavour, with the given indent argument."""
     base = el.formatter_for_name(name)
     arg = object() if indent == "OBJ" else indent
+    _MK[0] += 1
+    if _MK[0] % 2 and type(base) is not Formatter:
+        # every other time through the flavour's own class (HTMLFormatter / XMLFormatter), which must forward the
+        # options - the indent setting included - exactly like the base class
+        return type(base)(entity_substitution=base.entity_substitution,
+                          void_element_close_prefix=base.void_element_close_prefix,
+                          cdata_containing_tags=base.cdata_containing_tags,
+                          empty_attributes_are_booleans=base.empty_attributes_are_booleans, indent=arg)
     return Formatter(language=base.language, entity_substitution=base.entity_substitution,
                      void_element_close_prefix=base.void_element_close_prefix,
                      cdata_containing_tags=base.cdata_containing_tags,
